@@ -33,3 +33,4 @@ def rules(ctx):
     S.oldest_search_rules(ctx)
     S.survey3_rules(ctx)
     S.round5_rules(ctx)
+    S.round6_rules(ctx)
